@@ -91,6 +91,8 @@ def reset_status(name, typ, states):
             touched = any(e.recv is not None and isinstance(e.recv, tm.T) and C7.inside(e.recv, base) and e.name.split("::")[-1] in C7.RESET_METHODS and e.guard is tm.TRUE for e in s.events if hasattr(e, "recv"))
             if not touched:
                 touched = any(e.name.split("::")[-1] in C7.RESET_BY_ADDRESS and e.guard is tm.TRUE and any(isinstance(a, tm.T) and a is base for a in e.args) for e in s.events if hasattr(e, "recv"))
+            if not touched:
+                touched = C7.resized_and_fully_rewritten(s, base)
             if not touched and not C7.is_container_type(typ):
                 ws = [(k, idx, v) for (k, idx, v) in C7.stores_by_base(s) if C7.inside(idx[0], base)]
                 touched = bool(ws) and not any(C7.pre_state_syms(v) for _, _, v in ws)
